@@ -48,7 +48,13 @@ class Payload:
         return f'P{self.idx}:{self.mode}'
 
 
+CALLS: Counter = Counter()      # how often the function ran for each payload in the current execution
+
+
 def work(payload, *args, **kwargs):
+    CALLS[payload.idx] += 1
+    if payload.mode == 'type-error':
+        raise TypeError(payload.idx)            # the class the loop's compatibility retry for *visual* payloads looks at
     if payload.mode == 'interrupt':
         raise KeyboardInterrupt()
     if payload.mode in ('boom-any', 'boom-listed'):
@@ -169,7 +175,17 @@ class FakeMP:
         return 2
 
 
-def run_parproc(chooser, modes, max_workers, parallel, stats=None):
+class DetThreadExecutor(DetExecutor):
+    """Stands in for ThreadPoolExecutor on the route taken when the interpreter has free threading."""
+
+
+def expected(modes):
+    """What calling the function directly on each payload gives: the absolute oracle (one call each)."""
+    exc = {'boom-any': 'Boom', 'boom-listed': 'Boom', 'bang-base': 'Bang', 'eintr': 'InterruptedError', 'type-error': 'TypeError'}
+    return Counter((i, ('done', i, ('x',), (('k', 1),)) if mo == 'ok' else None, exc.get(mo)) for i, mo in enumerate(modes))
+
+
+def run_parproc(chooser, modes, max_workers, parallel, stats=None, route='process'):
     """One execution of the real parproc under the chooser.  Returns the
     observation: list of (payload idx, outcome, exception type) in yield
     order, or ('raised', type) if the generator raised."""
@@ -179,11 +195,16 @@ def run_parproc(chooser, modes, max_workers, parallel, stats=None):
     pm = sys.modules['tatsu.parproc.pmap']
     stats = stats if stats is not None else {}
     payloads = [Payload(i, m) for i, m in enumerate(modes)]
-    saved = (cf.ProcessPoolExecutor, pm.as_completed, pp.multiprocessing)
-    cf.ProcessPoolExecutor = DetExecutor
+    saved = (cf.ProcessPoolExecutor, pm.as_completed, pp.multiprocessing, cf.ThreadPoolExecutor, pm.HAS_MULTITHREADING_SUPPORT, pp.HAS_MULTITHREADING_SUPPORT)
+    if route == 'thread':
+        cf.ThreadPoolExecutor = DetThreadExecutor
+        pm.HAS_MULTITHREADING_SUPPORT = pp.HAS_MULTITHREADING_SUPPORT = True
+    else:
+        cf.ProcessPoolExecutor = DetExecutor
     pm.as_completed = make_as_completed(chooser, stats)
     pp.multiprocessing = FakeMP()
     DetExecutor.current = None
+    CALLS.clear()
     out = []
     try:
         try:
@@ -193,7 +214,10 @@ def run_parproc(chooser, modes, max_workers, parallel, stats=None):
         except BaseException as e:  # noqa
             out.append(('raised', type(e).__name__))
     finally:
-        cf.ProcessPoolExecutor, pm.as_completed, pp.multiprocessing = saved
+        cf.ProcessPoolExecutor, pm.as_completed, pp.multiprocessing, cf.ThreadPoolExecutor, pm.HAS_MULTITHREADING_SUPPORT, pp.HAS_MULTITHREADING_SUPPORT = saved
+    for i, k in sorted(CALLS.items()):
+        if k != 1:
+            out.append(('calls', i, k))          # the function runs once per payload
     ex = DetExecutor.current
     if ex is not None:
         stats['max_inflight'] = max(stats.get('max_inflight', 0), ex.max_inflight)
@@ -207,29 +231,35 @@ def configs(tier):
         # every subset of payloads raising a captured exception; the raising
         # mode cycles over the three capture forms so each form meets each slot
         for bits in itertools.product([0, 1], repeat=n):
-            for variant in range(4 if n and any(bits) else 1):
-                forms = ['boom-any', 'boom-listed', 'bang-base', 'eintr']
-                modes = tuple('ok' if not b else forms[(i + variant) % 4] for i, b in enumerate(bits))
+            for variant in range(5 if n and any(bits) else 1):
+                forms = ['boom-any', 'boom-listed', 'bang-base', 'eintr', 'type-error']
+                modes = tuple('ok' if not b else forms[(i + variant) % 5] for i, b in enumerate(bits))
                 for w in range(1, wmax + 1):
                     # full choice tree up to 5 payloads; 6 payloads deviation-bounded
-                    yield modes, w, (None if n <= 5 else 2)
+                    yield modes, w, (None if n <= 5 else 2), 'process'
+                    if n <= (3 if tier == 'quick' else 4):
+                        # the thread-pool route (free-threaded interpreters): everything is submitted at once
+                        yield modes, w, None, 'thread'
 
 
 def explore_config(m, cfg, bound):
     import tatsu.parproc  # noqa: F401  (ensures submodules are in sys.modules)
 
-    modes, w, bound = cfg
+    modes, w, bound, route = cfg
     if bound is not None:
         m.note('bounded', (len(modes), bound))
     n = len(modes)
-    seq = run_parproc(Chooser(), modes, w, parallel=False)
+    m.note('routes', route)
+    seq = run_parproc(Chooser(), modes, w, parallel=False, route=route)
     want = Counter(seq)
     if len(seq) != n or sorted(str(x[0]) for x in seq) != sorted(str(i) for i in range(n)):
         m.violation('sequential-not-one-per-payload', modes=modes, got=seq)
+    if want != expected(modes):
+        m.violation('sequential-differs-from-calling-the-function-once-per-payload', modes=modes, got=seq, want=sorted(expected(modes), key=repr))
     stats: dict = {}
 
     def body(ch):
-        return run_parproc(ch, modes, w, parallel=True, stats=stats)
+        return run_parproc(ch, modes, w, parallel=True, stats=stats, route=route)
 
     check_deterministic(body)
     orders = set()
@@ -252,7 +282,7 @@ def explore_config(m, cfg, bound):
                 sig = 'lost-result'
             else:
                 sig = 'different-multiset'
-            m.violation(f'{sig}', modes=modes, max_workers=w, choices=choices, got=obs, sequential=seq)
+            m.violation(f'{sig}' + ('/thread-route' if route == 'thread' else ''), modes=modes, max_workers=w, route=route, choices=choices, got=obs, sequential=seq)
     m.add('configs')
     m.add('states', len(orders))
     m.note('yield_orders', (modes, w, len(orders)))
@@ -340,6 +370,7 @@ def run(rc):
         n='4' if rc.tier == 'quick' else '5 (6 with <=2 deviations)', w=2 if rc.tier == 'quick' else 3)
     # big configs first so the pool balances
     cfgs.sort(key=lambda c: -(len(c[0]) * 10 + c[1]) if c[2] is None else 0)
+    rc.coverage['routes'] = ['process-pool (bounded window)', 'thread-pool (all submitted at once)']
     rc.pmap(shard, cfgs, chunk=1, bound=None)
     real_pool_conformance(rc)
     for n, b in sorted(rc.total.sets.get('bounded', ())):
@@ -371,11 +402,12 @@ def replay(data):
         return replay_by_rerun(sys.modules[__name__], data)
     modes = tuple(d['modes'])
     w = d.get('max_workers', 1)
-    seq = run_parproc(Chooser(), modes, w, parallel=False)
-    obs = run_parproc(Chooser(tuple(d.get('choices', ()))), modes, w, parallel=True)
+    route = d.get('route', 'process')
+    seq = run_parproc(Chooser(), modes, w, parallel=False, route=route)
+    obs = run_parproc(Chooser(tuple(d.get('choices', ()))), modes, w, parallel=True, route=route)
     print('sequential:', seq)
     print('parallel  :', obs)
-    bad = Counter(seq) != Counter(obs)
+    bad = Counter(seq) != Counter(obs) or Counter(seq) != expected(modes)
     if bad:
         print(f'VIOLATION property=C18 replay={data.get("signature")}')
     return 1 if bad else 0
